@@ -1,11 +1,34 @@
-from pyvc.runner import Property
+from pyvc.runner import Property, StandIn
+import contracts.all  # noqa
+import contracts.harness_general  # noqa
 import contracts.general as G
+import contracts.sort_enforcement as SE
+import contracts.standins_general as B
+from contracts import lemmas as L
+
+PROVED = [G.overlap_indices, G.fc_in, G.fully_contained_core, G.fc_sanity, G.fully_contained_in,
+          G.touching_windows_core, G.touching_windows, G.find_break_i, G.from_break, G.diff,
+          G.check_sorted, G.check_nonneg, G.check_no_overlap, SE.stable_argsort]
 
 PROPERTY = Property(
     "C17", "proof",
-    contracts=[G.overlap_indices, G.fc_in],
-    trusted=["pyvc VC generator", "z3 5.1.0 / cvc5 1.4.0"],
-    assumptions=["A1 integers are mathematical (no int64/int32 wrap-around)",
-                 "A2 numba-compiled code behaves like the Python source on the verified subset"],
-    explanation="interval primitives against their set-theoretic definitions",
+    contracts=PROVED,
+    lemmas=[L.SORTED, L.DISJOINT],
+    standins=[StandIn("split_by_containment", B.split_by_containment, B.split_by_containment.harness),
+              StandIn("abs_time_to_prev_next_interval", B.abs_time_to_prev_next, B.abs_time_to_prev_next.harness),
+              StandIn("sort_by_time", B.sort_by_time, B.sort_by_time.harness)]
+    + [StandIn("replay-scope:" + c.qualname, c, c.harness, budget={"quick": 1500, "thorough": 100000})
+       for c in PROVED if c.harness is not None],
+    trusted=["pyvc VC generator and value model", "z3 5.1.0 / cvc5 1.4.0",
+             "library model: np.argsort(kind='mergesort') is a stable sorting permutation",
+             "library models of len/range/enumerate/zip/min/max/np.zeros/np.ones/np.all/slicing",
+             "induction principle behind the two lemmas (base and step are discharged)"],
+    assumptions=["A1 integers are mathematical (no int64/int32 wrap-around; result arrays are int32/int64 in the code)",
+                 "A2 numba-compiled code behaves like the Python source on the verified subset (each stand-in input is "
+                 "run through both the compiled dispatcher and .py_func)",
+                 "strax.endtime(x) is modelled as a per-row value 'endtime' (field, or time+length*dt)",
+                 "split_by_containment, abs_time_to_prev_next_interval and sort_by_time are NOT proved: bounded stand-ins only"],
+    explanation="interval primitives against their set-theoretic definitions: containment, touching windows, overlap "
+                "indices, gaps, break finding and the sortedness checks are proved for all array lengths; three "
+                "functions outside the subset are covered by labelled bounded stand-ins",
 )
